@@ -80,9 +80,12 @@ def generate(seed, tier):
     if r.random() < 0.3:
         # several protect entries with one side in common and suites of their own: whichever entry a negotiation (also a rekey, in either
         # direction) belongs to, the suite comes out of THAT entry's policy
-        o['conf'].update({'entries': 3, 'share_side': 0.7, 'single': r.random() < 0.6})
-        o['forced'] = 5
+        o['conf'].update({'entries': 3, 'share_side': 0.8, 'single': r.random() < 0.8})
+        o['forced'] = 8
         o['forced_kinds'] = ['expire_soft']
+        o['packets'] = r.randint(4, 7)         # traffic for every entry, from both ends: their CHILD_SAs are rekeyed by either end
+        o['both_initiate'] = True
+        o['duration'] = 45
     sc = workload.pair_scenario(seed, PROP, o)
     sc['meta']['share_side'] = bool(o['conf'].get('share_side'))
     ca, cb = sc['nodes']['A']['conf']['to-b'], sc['nodes']['B']['conf']['to-a']
@@ -253,9 +256,15 @@ def judge(w, tap, scenario, reach):
         cands = []
         tsi_r = next((p for p in m['payloads'] if p['type'] == R.P_TSi), None)
         tsr_r = next((p for p in m['payloads'] if p['type'] == R.P_TSr), None)
+        # (a rekey request names the CHILD_SA and carries its selectors: also when it is refused, only the entries those selectors lie in
+        #  can have been the policy)
+        is_rekey = any(p['type'] == R.P_NOTIFY and p['ntype'] == R.N_REKEY_SA for p in q['payloads'])
+        tsi_q = next((p for p in q['payloads'] if p['type'] == R.P_TSi), None)
+        tsr_q = next((p for p in q['payloads'] if p['type'] == R.P_TSr), None)
+        by_request = sa_r is None and is_rekey and tsi_q and tsr_q and len(tsi_q['selectors']) == 1 and len(tsr_q['selectors']) == 1
         for e in conn['protect']:
-            if sa_r is not None and tsi_r and tsr_r and tsi_r['selectors'] and tsr_r['selectors']:
-                a, b = tsi_r['selectors'][0], tsr_r['selectors'][0]
+            if by_request or (sa_r is not None and tsi_r and tsr_r and tsi_r['selectors'] and tsr_r['selectors']):
+                a, b = (tsi_q['selectors'][0], tsr_q['selectors'][0]) if by_request else (tsi_r['selectors'][0], tsr_r['selectors'][0])
                 fam = 4 if a['ts_type'] == 7 else 6
                 if e['peer_net'].version != fam:
                     continue
